@@ -243,7 +243,7 @@ PROPS["C10"] = dict(
     title="Directives change exactly what they select",
     modules=["Kust.Props.C10", "Kust.Props.C10b", "Kust.Props.C10c", "Kust.Props.C10d"],
     theorems=["Kust.C10.select_designates", "Kust.C10.select_mem", "Kust.C10.select_sublist", "Kust.C10.mixed_original_and_current", "Kust.C10.name_mismatch_excluded", "Kust.C10.kind_mismatch_excluded", "Kust.C10.empty_selector_selects_all", "Kust.C10.bad_pattern_is_error", "Kust.C10.unparsable_selector_error_iff_reached",
-              "Kust.C10.image_match_exact", "Kust.C10.rest_starts_tag_or_digest", "Kust.C10.match_has_prefix", "Kust.C10.unmatched_untouched",
+              "Kust.C10.image_match_exact", "Kust.C10.rest_starts_tag_or_digest", "Kust.C10.match_has_prefix", "Kust.C10.unmatched_untouched", "Kust.C10.update_tag_and_digest", "Kust.C10.update_tag_only", "Kust.C10.update_digest_only", "Kust.C10.update_name_only",
               "Kust.C10.stripPrefix_iff", "Kust.C10.Witness.old_regex_name_matched_other_image",
               "Kust.C10.unselected_untouched", "Kust.C10.unnamed_field_untouched", "Kust.C10.target_frame", "Kust.C10.target_writes",
               "Kust.C10.literal_copied_verbatim", "Kust.C10.source_unique_and_current", "Kust.C10.last_sees_predecessors",
